@@ -218,8 +218,9 @@ Fixpoint run_sccs (fuel : nat) (pl : plan) (st : state) : option state :=
   | sc :: pl' => match run_scc fuel sc st with Some st' => run_sccs fuel pl' st' | None => None end
   end.
 
-(* run(): update_indices appends every row to the stored indices (without clearing), then the SCCs *)
-Definition update_indices (st : state) : state := {| rows := rows st; stored := stored st ++ rows st |}.
+(* run(): update_indices resets every index of the program value and inserts every row again
+   (ascent_codegen.rs compile_update_indices_function_body), then the SCCs *)
+Definition update_indices (st : state) : state := {| rows := rows st; stored := rows st |}.
 Definition run_plan (fuel : nat) (pl : plan) (st : state) : option state := run_sccs fuel pl (update_indices st).
 Definition init_state (F0 : list fact) : state := {| rows := F0; stored := [] |}.
 End Eval.
